@@ -2,7 +2,7 @@
 # usage: confirm_seed.sh <worktree> <change.diff> <demo_test.go> <pkgdir (relative)> <demo run regexp>
 # Confirms: demo passes without the change, fails with it; the package's own tests pass with it.
 export GOFLAGS=-mod=mod GOPROXY=off GOSUMDB=off GOTOOLCHAIN=local
-WT=$1; DIFF=$2; DEMO=$3; PKG=$4; PAT=$5
+WT=$1; DIFF=$2; DEMO=$3; PKG=$4; PAT=$5; EXIST=${6:-}
 cd $WT || exit 2
 git checkout -q -- . ; rm -f $PKG/zz_seed_demo_test.go
 cp $DEMO $PKG/zz_seed_demo_test.go
@@ -13,5 +13,5 @@ echo "--- demo WITH change (expect FAIL)"
 go test -count=1 -vet=off -timeout 300s -run "$PAT" ./$PKG/ 2>&1 | tail -3
 rm -f $PKG/zz_seed_demo_test.go
 echo "--- existing package tests WITH change (expect ok)"
-go test -count=1 -vet=off -timeout 1200s ./$PKG/ 2>&1 | tail -3
+if [ -n "$EXIST" ]; then go test -count=1 -vet=off -timeout 1200s -run "$EXIST" ./$PKG/ 2>&1 | tail -3; else go test -count=1 -vet=off -timeout 1200s ./$PKG/ 2>&1 | tail -3; fi
 git checkout -q -- .
